@@ -528,11 +528,11 @@ pub fn run_cmd(args: &Args) {
     if args.rest.get(0).map(|s| s.as_str()) == Some("probe") { return probe(args); }
     let thorough = args.tier == "thorough";
     let seed = args.seed;
+    if args.rest.get(0).map(|s| s.as_str()) == Some("shard") { return run_shard(args, args.rest[1].parse().unwrap()); }
     // keep freed encoder tables in the heap: repeated mmap/munmap of 1–32 MB blocks (zero-fill page
     // faults) dominated the run time otherwise.  Allocation behaviour only; no effect on results.
     unsafe { extern "C" { fn mallopt(param: i32, value: i32) -> i32; } mallopt(-3, 32 << 20); mallopt(-1, 1 << 30); }
-    // watchdog: a hang (e.g. a pool join that never returns) is an observation, not a harness hang
-    { let out = args.out.clone(); std::thread::spawn(move || { let mut last = 0; let mut idle = 0; loop { std::thread::sleep(std::time::Duration::from_secs(2)); let b = BEAT.load(std::sync::atomic::Ordering::SeqCst); if b == last { idle += 1; if idle > 90 { let mut rep = Report::default(); rep.violation("multi:hang", "no CompressMulti call returned for 180 s (a join that never returns?)", "{}".into()); rep.write(&out); std::process::exit(0); } } else { idle = 0; last = b; } } }); }
+    spawn_watchdog(args.out.clone());
     let t0 = std::time::Instant::now();
     let mut corr = Corr::new(&args.out);
     let mut rep = Report::default();
@@ -565,25 +565,51 @@ pub fn run_cmd(args: &Args) {
         }
         for n in [0usize, 1, 16383, 16384, 16385, (1 << 20) - 1, 1 << 20, (1 << 20) + 1, (1 << 24) - 1, 1 << 24, (1 << 24) + 1, usize::MAX - 30, usize::MAX] { corr.case(&format!("multi max {}", n), &format!("{}", BrotliEncoderMaxCompressedSize(n))); }
     }
-    eprintln!("multi: arith {:?}", t0.elapsed());
-    // ---- correspondence cases (small inputs: every job's bytes go into the request line)
+    // ---- correspondence + search cases: sharded over 16 child PROCESSES (all threads of one
+    // process share one address-space lock; the encoders' zero-fill page faults serialise on it)
+    let nshards = 16usize;
+    let exe = std::env::current_exe().unwrap();
+    let mut kids = vec![];
+    for k in 0..nshards {
+        let d = args.out.join(format!("shard{}", k));
+        std::fs::create_dir_all(&d).unwrap();
+        kids.push((k, d.clone(), std::process::Command::new(&exe).args(["multi", "--tier", &args.tier, "--seed", &seed.to_string(), "--out", d.to_str().unwrap(), "shard", &k.to_string()]).spawn().unwrap()));
+    }
+    for (k, d, mut kid) in kids {
+        let ok = kid.wait().map(|st| st.success()).unwrap_or(false);
+        if let (Ok(o), Ok(i)) = (std::fs::read_to_string(d.join("ops.txt")), std::fs::read_to_string(d.join("impl.txt"))) { for (a, b) in o.lines().zip(i.lines()) { corr.case(a, b); } }
+        if let Ok(r) = std::fs::read_to_string(d.join("report.tsv")) { rep.merge_tsv(&r); }
+        if !ok { rep.violation("multi:crash", "a shard of the multi engine crashed (abort / stack overflow inside the code under test?)", format!("{{\"shard\":{}}}", k)); }
+        let _ = std::fs::remove_dir_all(&d);
+    }
+    eprintln!("multi: shards {:?}", t0.elapsed());
+    corr.finish();
+    rep.write(&args.out);
+}
+
+fn spawn_watchdog(out: std::path::PathBuf) {
+    std::thread::spawn(move || { let mut last = 0; let mut idle = 0; loop { std::thread::sleep(std::time::Duration::from_secs(2)); let b = BEAT.load(std::sync::atomic::Ordering::SeqCst); if b == last { idle += 1; if idle > 90 { let mut rep = Report::default(); rep.violation("multi:hang", "no CompressMulti call returned for 180 s (a join that never returns?)", "{}".into()); rep.write(&out); std::process::exit(0); } } else { idle = 0; last = b; } } });
+}
+
+fn run_shard(args: &Args, task: usize) {
+    let thorough = args.tier == "thorough";
+    let seed = args.seed;
+    spawn_watchdog(args.out.clone());
+    let mut corr = Corr::new(&args.out);
+    let mut rep = Report::default();
     let ncorr = if thorough { 1600 } else { 224 };
-    let res = par_tasks(16, move |task| {
-        let mut lines = vec![]; let mut rep = Report::default();
+    {
+        let mut lines = vec![];
         let mut pool: Pool = brotli::enc::new_work_pool(1 + task % 5);
         for k in 0..ncorr / 16 {
             let mut rng = Rng::new(seed ^ 0xC022 ^ ((task as u64) << 20) ^ ((k as u64) << 36));
             let c = gen_case(&mut rng, true);
             corr_case(&c, &mut lines, &mut rep, &mut pool, &mut rng);
         }
-        (lines, rep)
-    });
-    for (lines, r) in res { for (a, b) in lines { corr.case(&a, &b); } rep.merge(r); }
-    eprintln!("multi: corr {:?}", t0.elapsed());
-    // ---- search
+        for (a, b) in lines { corr.case(&a, &b); }
+    }
     let nsearch = if thorough { 6400 } else { 400 };
-    let res = par_tasks(16, move |task| {
-        let mut rep = Report::default();
+    {
         let mut pool: Pool = brotli::enc::new_work_pool(1 + (task * 7) % 16);
         for k in 0..nsearch / 16 {
             let mut rng = Rng::new(seed ^ 0x5EA2 ^ ((task as u64) << 20) ^ ((k as u64) << 36));
@@ -591,10 +617,7 @@ pub fn run_cmd(args: &Args) {
             search_case(&c, &mut rep, &mut pool, &mut rng);
             if rep.samples.len() < 1 { rep.sample(c.json("")); }
         }
-        rep
-    });
-    for r in res { rep.merge(r); }
-    eprintln!("multi: search {:?}", t0.elapsed());
+    }
     corr.finish();
     rep.write(&args.out);
 }
